@@ -194,6 +194,9 @@ class TaskControl(object):
         @return (list) of string. where elements are task name.
         """
         selected_task = []
+        # placeholders created here for sub-tasks of a delayed task-creator
+        # selected by name, they share the loader of the creator
+        subtask_placeholders = set()
 
         filter_list = self._process_filter(task_selection)
         for filter_ in filter_list:
@@ -215,6 +218,7 @@ class TaskControl(object):
                     raise InvalidCommand(not_found=filter_)
                 loader.basename = basename
                 self.tasks[filter_] = Task(filter_, None, loader=loader)
+                subtask_placeholders.add(filter_)
                 selected_task.append(filter_)
                 continue
 
@@ -224,6 +228,8 @@ class TaskControl(object):
                 if not task.loader:
                     continue
                 if task.name.startswith('_regex_target'):
+                    continue
+                if task.name in subtask_placeholders:
                     continue
                 if task.loader.target_regex:
                     if re.match(task.loader.target_regex, filter_):
